@@ -5,12 +5,16 @@
 (*  rows: kind (row / final / failure / other), row number, and for rows that *)
 (*  report an operator, its arguments and a value: op, args, value as taken   *)
 (*  from the step state, plus cons = clvmr's answer for (op (q . a1) ...).     *)
-EXTENDS Clvm, Json, IOUtils, TLC, FiniteSets
+EXTENDS Cldb, Json, IOUtils, TLC, FiniteSets
+\* (the name Trace is Cldb's operator; the records are Rec)
 Rec == ndJsonDeserialize(IOEnv.TRACE)
 VARIABLES l, bad, specerr, cnt
 vars == <<l, bad, specerr, cnt>>
 Init == l = 1 /\ bad = {} /\ specerr = {} /\ cnt = [runs |-> 0, rows |-> 0, rows_checked |-> 0, finals |-> 0, failures |-> 0, model_checked |-> 0]
 Class(o) == IF o[1] = "ok" THEN o ELSE <<o[1]>>
+RECURSIVE SortedSeq(_)
+SortedSeq(S) == IF S = {} THEN <<>> ELSE LET m == CHOOSE x \in S : \A y \in S : x <= y IN <<m>> \o SortedSeq(S \ {m})
+SetToSortSeq(S) == SortedSeq(S)
 Next ==
   /\ l <= Len(Rec) /\ l' = l + 1
   /\ LET e == Rec[l]
@@ -18,7 +22,7 @@ Next ==
          \* rows are numbered consecutively from 0 (terminal and print rows carry no number but are counted)
          numbering == \A i \in R : e.rows[i].row \in {-1, i - 1} /\ (e.rows[i].kind = "row" => e.rows[i].row = i - 1)
          \* every row that reports an operator, its arguments and a value is true of the consensus evaluator
-         FalseRows == {i \in R : e.rows[i].kind = "row" /\ e.rows[i].has /\ e.rows[i].cons # Ok(e.rows[i].value)}
+         BadRows == {i \in R : e.rows[i].kind = "row" /\ e.rows[i].has /\ e.rows[i].cons # Ok(e.rows[i].value)}
          \* exactly one terminal row, at the end: the final value equals the consensus result, a failure entry exactly when it fails
          last == IF e.rows = <<>> THEN [kind |-> "none"] ELSE e.rows[Len(e.rows)]
          terminal == /\ e.rows # <<>>
@@ -29,8 +33,16 @@ Next ==
          MS == {i \in R : e.rows[i].kind = "row" /\ e.rows[i].has /\ IsAtom(e.rows[i].op) /\
                    LET m == Apply(BytesOf(e.rows[i].op), e.rows[i].args, 30) IN
                    m[1] \in {"ok", "err"} /\ e.rows[i].cons[1] \in {"ok", "err"} /\ Class(m) # Class(e.rows[i].cons)}
-     IN /\ bad' = IF numbering /\ FalseRows = {} /\ terminal /\ e.same_hex THEN bad
-                  ELSE bad \cup {<<l, [numbering |-> numbering, false_rows |-> FalseRows, terminal |-> terminal, same_hex |-> e.same_hex]>>}
+         \* does the row assembler of the specification (Cldb.tla on the ClvmStepper machine, with their documented deviations:
+         \* rows of a / i closed by a foreign value, head forms evaluated) produce exactly the rows that were observed?
+         Reported == {i \in R : e.rows[i].kind \in {"final", "failure"} \/ (e.rows[i].kind = "row" /\ e.rows[i].has)}
+         ObsRow(i) == IF e.rows[i].kind = "row" THEN <<"row", e.rows[i].op, e.rows[i].args, e.rows[i].value>>
+                      ELSE IF e.rows[i].kind = "final" THEN <<"final", e.rows[i].value>> ELSE <<"failure">>
+         ObsSeq == LET idx == SetToSortSeq(Reported) IN [k \in 1..Len(idx) |-> ObsRow(idx[k])]
+         explained == Trace(e.prog, e.env) = ObsSeq
+     IN /\ bad' = IF numbering /\ BadRows = {} /\ terminal /\ e.same_hex THEN bad
+                  ELSE bad \cup {<<l, [numbering |-> numbering, false_rows |-> BadRows, terminal |-> terminal, same_hex |-> e.same_hex,
+                                       model_explains |-> explained]>>}
         /\ specerr' = IF MS = {} THEN specerr ELSE specerr \cup {<<l, MS>>}
         /\ cnt' = [cnt EXCEPT !.runs = @ + 1, !.rows = @ + Len(e.rows),
                               !.rows_checked = @ + Cardinality({i \in R : e.rows[i].kind = "row" /\ e.rows[i].has}),
